@@ -327,8 +327,8 @@ def variant_indices(d):
 def exp_fields(d, members, inst):
     out = []
     for m in members:
-        if m.skip or is_phantom(m.ty): continue
         cty = concrete(d, m.ty, inst)
+        if m.skip or is_phantom(m.ty) or is_phantom(cty): continue
         tyexpr = src(cty)
         if m.compact:
             tyexpr = 'scale::Compact<%s>' % tyexpr
@@ -379,9 +379,9 @@ def meta_check_src(d, crate, modname, inst, defid):
         for v, idx in variant_indices(d):
             vs.append('ExpVariant { name: %s, index: %d, fields: %s, docs: &[%s] }' % (rstr(v.name), idx, fix(exp_fields(d, v.members, inst)), ', '.join(rstr(x) for x in doc_model(v.docs))))
         edef = 'ExpDef::Variant(vec![%s])' % ', '.join(vs)
-    return ('    r.meta(%s, &<%s as TypeInfo>::type_info(), &ExpMeta { path: vec![%s], params: vec![%s], def: %s, docs: &[%s], capture: %s });'
+    return ('    r.meta_with(%s, &<%s as TypeInfo>::type_info(), &ExpMeta { path: vec![%s], params: vec![%s], def: %s, docs: &[%s], capture: %s }, Some(mt::<%s>()));'
             % (rstr(defid), selfinst, ', '.join(rstr(s) for s in path_model(d, crate, modname)), ', '.join(params), edef,
-               ', '.join(rstr(x) for x in doc_model(d.docs)), capture_model(d)))
+               ', '.join(rstr(x) for x in doc_model(d.docs)), capture_model(d), selfinst))
 
 
 def member_values(d, m, inst, base):
@@ -414,7 +414,7 @@ def build_value(d, inst, members, sel, base, ctor):
         vs = member_values(d, m, inst, base)
         e, tr = vs[s % len(vs)] if s >= 0 else vs[-1]
         exprs.append((m, e))
-        if not m.skip and not is_phantom(m.ty) and tr is not None:
+        if not m.skip and not is_phantom(m.ty) and not is_phantom(concrete(d, m.ty, inst)) and tr is not None:
             trees.append('%s:%s' % ((m.rename if m.rename is not None else m.name) or '_', tr))
     return exprs, trees
 
@@ -486,7 +486,7 @@ def all_members(d):
 # ------------------------------------------------------------------ enumeration: base shapes
 
 NG = [I('u8'), I('u32'), BOOL, STRING, VEC(I('u8')), OPT(I('u16')), ARR(I('u8'), 3), TUP(I('u8'), BOOL), TUP(I('u8'), TUP(BOOL, I('u8'))),
-      PH(I('u8')), ('strref', 'static'), BOX(I('u16')), I('i8'), I('u64'), I('u128'), SELFOPT, SELFVEC, TUP(I('u8'), PH(BOOL)), VEC(OPT(BOOL)), I('i32'), I('u16'), ('cowstr',)]
+      PH(I('u8')), ('strref', 'static'), BOX(I('u16')), I('i8'), I('u64'), I('u128'), SELFOPT, SELFVEC, TUP(I('u8'), PH(BOOL)), VEC(OPT(BOOL)), I('i32'), I('u16'), ('cowstr',), TUP(I('u8')), VEC(TUP(I('u32'))), TUP(TUP(BOOL), I('u8'))]
 S8 = [I('u8'), I('u32'), BOOL, STRING, VEC(I('u8')), PH(I('u8')), SELFOPT, TUP(I('u8'), BOOL), ('cowstr',)]
 S5 = [I('u8'), STRING, PH(I('u8')), OPT(I('u16')), I('u32')]
 FNAMES = ['a', 'b', 'c']
@@ -917,6 +917,12 @@ def gen_definitions(thorough):
     for g in generic_shapes(thorough):
         c = g.clone()
         add(c, 'TypeInfo-only: ' + g.tag)
+    php = {'T': PH(I('u8')), 'U': PH(BOOL), 'N': 2}
+    for t in (PARAM('T'), VEC(PARAM('T')), OPT(PARAM('T')), TUP(PARAM('T'), I('u8')), PH(PARAM('T'))):
+        add(D('struct', 'named', named_members([t, I('u16')]), generics=[T], inst=php), 'a parameter instantiated at PhantomData<u8>: {%s, u16}' % src(t))
+    add(D('struct', 'named', named_members([PARAM('U'), PARAM('T'), I('u8')]), generics=[T, U], inst=php), 'two parameters instantiated at PhantomData')
+    add(D('enum', variants=[V('A', 'tuple', tuple_members([PARAM('T')])), V('B', 'named', named_members([OPT(PARAM('T'))]))], generics=[T], skip_params=[], inst=php), 'enum with a parameter instantiated at PhantomData')
+    add(D('struct', 'named', named_members([PH(PARAM('T')), PARAM('U')]), generics=[T, U], skip_params=['T'], inst={'T': PH(I('u8')), 'U': PH(I('u8')), 'N': 2}), 'skipped parameter next to a PhantomData-instantiated one')
     for t in GEN_MEMBER:
         for shape in ('named', 'tuple'):
             ms = named_members([t, I('u8')]) if shape == 'named' else tuple_members([t, I('u8')])
